@@ -619,7 +619,11 @@ impl Lowerer {
             pl::TransformKind::Join {
                 side, with, filter, ..
             } => {
+                // lowering a pipeline given as `with` ends with no window in
+                // effect; the condition is lowered in the window of this join
+                let window = self.window.take();
                 let with = self.lower_table_ref(*with)?;
+                self.window = window;
 
                 let transform = Transform::Join {
                     side,
